@@ -11,6 +11,10 @@ CONSTANTS
   Modes = {"run", "master"}
   Conts = {TRUE, FALSE}
   Forks = {FALSE}
+  Starts = {0}
+  TreeStart = TRUE
+  Ends = {0}
+  Aheads = {0}
   MaxFaults = 2
   FaultBudgets = {2}
   MaxRestarts = 1
